@@ -529,7 +529,28 @@ def deep_family(ctx, only=None):
             return None
         return "cycle-through-a-nested-component-accepted", {}
 
-    scen = {"S0": s0, "S1": s1, "S2": s2, "S3": s3, "S4": s4, "S5": s5, "S6": s6, "S7": s7}
+    def s8(case):
+        # a chain over class-typed *arguments* only, instantiated with instantiate_groups=False (links=1) or with the default (links=0)
+        p = ArgumentParser(exit_on_error=False)
+        for nm in case["decl"]:
+            if nm == "a":
+                p.add_argument("--a", type=DSrc, default={"class_path": M + "DSrc"})
+            elif nm == "b":
+                p.add_argument("--b", type=DSink, default={"class_path": M + "DSink"})
+            else:
+                p.add_argument("--d", type=DSink, default={"class_path": M + "DSink"})
+        p.link_arguments("b", "d.init_args.y", apply_on="instantiate")
+        p.link_arguments("a", "b.init_args.y", apply_on="instantiate")
+        del LOG[:]
+        cfg = p.parse_args([])
+        init = p.instantiate_classes(cfg, instantiate_groups=False) if case["links"] == 1 else p.instantiate_classes(cfg)
+        names = [x[0] for x in LOG]
+        if sorted(names) != ["DSink", "DSink", "DSrc"]:
+            return "class-not-constructed-exactly-once", {"constructed": names}
+        if names[0] != "DSrc" or init.b.y is not init.a or init.d.y is not init.b:
+            return "source-constructed-after-dependant" if names[0] != "DSrc" else "linked-parameter-has-wrong-value", {"constructed": names, "b.y": short(init.b.y, 60), "d.y": short(init.d.y, 60)}
+
+    scen = {"S0": s0, "S1": s1, "S2": s2, "S3": s3, "S4": s4, "S5": s5, "S6": s6, "S7": s7, "S8": s8}
     for name, fn in scen.items():
         for decl in itertools.permutations(["a", "b", "d"]):
             for links in (0, 1):
